@@ -5,9 +5,10 @@ import numpy as np
 import vlib
 from vlib import zl, ql, zlit, qlit
 import py2coq
+import c13_hist
 
 HEADER = '''From Coq Require Import ZArith QArith List Bool.
-From Pymoto Require Import Base.Num Base.Cmp Model.Grid Model.Shape.
+From Pymoto Require Import Base.Num Base.Cmp Model.Grid Model.Shape Model.GridHist.
 Import ListNotations.
 Open Scope Z_scope.
 Definition G (a b c : Z) := {| nelx := a; nely := b; nelz := c |}.
@@ -44,7 +45,7 @@ def run(ctx):
                     'the Z/list theorems are closed under the global context',
                     'modelled rather than verified: numpy integer array arithmetic/broadcasting in DomainDefinition (validated by exhaustive correspondence)']
     vlib.audit(ctx)
-    if not vlib.ensure_static(ctx):
+    if not vlib.ensure_static(ctx, ['theories/Props/C13.vo', 'theories/Props/C13h.vo']):
         return
     # ---- (T) regenerate the formulas from the source and re-check the bridge lemmas
     gen_ok = True
@@ -65,6 +66,7 @@ def run(ctx):
         ctx.violation('proof', 'pymoto/common/domain.py', 'generated formulas equal Model/Grid.v', 'translator/bridge',
                       dict(error=err[-3000:]), theorem='BridgeC13.GridBridge')
     vlib.check_props(ctx)
+    vlib.check_props(ctx, 'theories/Props/C13h.v')     # the object as a state machine: queries are pure and return fresh arrays
 
     # ---- (H) exhaustive correspondence through the public API
     checks, labels = [], []
@@ -154,6 +156,12 @@ def run(ctx):
         add(('shape', dim, cls, tuple(hq), tuple(pq), tuple(kinds) if kinds else None, pos_int),
             f'({cmpf} (shape_fun {dim}%nat {ql(hq)}%Q {ql(pq)}%Q) {ql([Fraction(float(v)) for v in N])}%Q && '
             f'{cmpf2} (shape_der {dim}%nat {ql(hq)}%Q {ql(pq)}%Q) {ql([[Fraction(float(v)) for v in r] for r in dN])}%Q)')
+    # ---- (H) histories on ONE domain object (and several objects interleaved): Model/GridHist.v evaluated on the same history
+    hist_of = {}
+    for h in c13_hist.run_histories(ctx, pym, lambda label, expr, nt, case: add(label, expr, nt)):
+        hist_of[len(hist_of)] = h
+    nhist = len(hist_of)
+    hist_idx = {len(checks) - nhist + i: hist_of[i] for i in range(nhist)}
     ctx.exhaustive = True
     failing, err = vlib.run_cases(ctx, 'grid', HEADER, checks, chunk=120)
     ctx.obligation('correspondence:case files evaluated', 'correspondence', not err, err)
@@ -162,9 +170,21 @@ def run(ctx):
         ctx.violation('correspondence', 'DomainDefinition', 'case files compile', 'harness', dict(error=err[-3000:]),
                       theorem='cases_grid')
     broken = bool(failing) or not gen_ok
+    located = 0
     for idx in failing[:20]:
-        ctx.violation('correspondence', 'DomainDefinition', 'model == implementation', str(labels[idx][0]),
-                      dict(label=labels[idx], coq_check=checks[idx][:4000]), note='Coq model and implementation differ')
+        note = 'Coq model and implementation differ'
+        case = dict(label=labels[idx], coq_check=checks[idx][:4000])
+        if idx in hist_idx:
+            h = hist_idx[idx]
+            case.update(history=h.name, grid=list(h.grid), sizes=[float(v) for v in h.hs], size_kinds=h.kinds, ops=h.ops[:h.k])
+            if located < 3:      # which operations of the history were observed differently
+                located += 1
+                vals, _ = vlib.eval_coq(ctx, f'hist_{located}', HEADER, [h.coq_failing()])
+                if vals:
+                    case['operations_observed_differently'] = vals[0]
+            note = ('history on one DomainDefinition object: the observations of the implementation differ from run_obs of Model/GridHist.v '
+                    '(queries pure, results fresh arrays)')
+        ctx.violation('correspondence', 'DomainDefinition', 'model == implementation', str(labels[idx][0]), case, note=note)
 
     # ---- implementation-side property oracle (search for a concrete failing input)
     oracle(ctx, pym, thorough=not ctx.quick() or broken)
